@@ -479,6 +479,10 @@ def main(check: Check, argv=None) -> int:
                     print(f"DIGEST {r} {results[r]['digest']}")
             return 0 if not errs else 2
 
+        if hasattr(check, "warm_if_stale") and not args.replay:
+            # an edited source file invalidates the JIT caches: re-warm them in parallel once instead of letting
+            # every worker recompile the same kernels inside its run timeout
+            check.warm_if_stale(args.workers)
         findings = oplog.load_known_findings()
         agg = {
             "runs": 0, "distinct": set(), "samples": [], "sim": {}, "faults": {}, "probes": {},
